@@ -145,14 +145,14 @@ func batchChild(args []string) int {
 }
 
 type ProgRes struct {
-	Config   config `json:"config"`
-	Batches  int    `json:"batches"`
-	Ops      int    `json:"ops"`
-	MaxItems int    `json:"max_items"`
-	Problem  string `json:"problem,omitempty"`
-	Class    string `json:"class,omitempty"`
-	AtBatch  int    `json:"at_batch"`
-	Harness  string `json:"harness,omitempty"`
+	Config   config   `json:"config"`
+	Batches  int      `json:"batches"`
+	Ops      int      `json:"ops"`
+	MaxItems int      `json:"max_items"`
+	Problem  string   `json:"problem,omitempty"`
+	Class    string   `json:"class,omitempty"`
+	AtBatch  int      `json:"at_batch"`
+	Harness  string   `json:"harness,omitempty"`
 	Sample   []txn.Op `json:"sample,omitempty"`
 }
 
